@@ -1,0 +1,29 @@
+//go:build verif
+
+package bitio
+
+// Add-only export for the /verif harness (build tag verif): runs a script of
+// LosslessReader operations on data and reports every observable.
+//
+// ops: n >= 0   -> ReadBits(n); result value
+//      -1       -> FillBitWindow + PrefetchBits; result value
+//      -100 - k -> SetBitPos(BitPos() + k)  (consume k prefetched bits); result 0
+// After each op the end-of-stream flag is recorded.
+func VerifLosslessReaderRun(data []byte, ops []int) (vals []uint32, eos []bool) {
+	br := NewLosslessReader(data)
+	for _, op := range ops {
+		var v uint32
+		switch {
+		case op >= 0:
+			v = br.ReadBits(op)
+		case op == -1:
+			br.FillBitWindow()
+			v = br.PrefetchBits()
+		default:
+			br.SetBitPos(br.BitPos() + (-100 - op))
+		}
+		vals = append(vals, v)
+		eos = append(eos, br.IsEndOfStream())
+	}
+	return vals, eos
+}
